@@ -819,6 +819,7 @@ func c03diff(path string, a, b *c03node) string {
 
 type c03sessCase struct {
 	neg    int // index into c03negotiations[v]
+	caps   int // index into c03capSets
 	wfK    int // replay of a write-failure case: request index and phase (-1: chosen by position)
 	wfPh   int
 	line   string // replayable: "c03 sess <v> <sc> <nh> <seed> <nops> <small>"
@@ -866,16 +867,43 @@ var c03negotiations = map[string][]struct {
 	"1.1": {{true, true, ""}, {true, true, "1.1"}, {false, true, ""}, {false, true, "1.1"}},
 }
 
-func c03runSession(v string, neg int, sc, nh bool, ops []c03op) c03obs {
-	return c03runSessionFault(v, neg, sc, nh, ops, -1)
+// c03capSets: what else the server's hello advertises (a session dimension): realistic capability
+// sets around the things operation options talk about -- with-defaults with each basic mode and
+// also-supported lists, candidate / confirmed-commit, xpath, url, writable-running, notification,
+// yang-library, vendor capabilities. The request must never depend on them.
+var c03capSets = [][]string{
+	nil,
+	{"urn:ietf:params:netconf:capability:writable-running:1.0", "urn:ietf:params:netconf:capability:candidate:1.0",
+		"urn:ietf:params:netconf:capability:confirmed-commit:1.1", "urn:ietf:params:netconf:capability:rollback-on-error:1.0",
+		"urn:ietf:params:netconf:capability:validate:1.1", "urn:ietf:params:netconf:capability:startup:1.0",
+		"urn:ietf:params:netconf:capability:url:1.0?scheme=file,ftp,sftp", "urn:ietf:params:netconf:capability:xpath:1.0",
+		"urn:ietf:params:netconf:capability:notification:1.0", "urn:ietf:params:netconf:capability:interleave:1.0",
+		"urn:ietf:params:netconf:capability:with-defaults:1.0?basic-mode=explicit&amp;also-supported=report-all,report-all-tagged,trim",
+		"urn:ietf:params:netconf:capability:yang-library:1.1?revision=2019-01-04&amp;content-id=61",
+		"urn:ietf:params:xml:ns:yang:ietf-netconf-with-defaults?module=ietf-netconf-with-defaults&amp;revision=2011-06-01"},
+	{"urn:ietf:params:netconf:capability:with-defaults:1.0?basic-mode=report-all", "urn:ietf:params:netconf:capability:writable-running:1.0",
+		"urn:ietf:params:netconf:capability:xpath:1.0"},
+	{"urn:ietf:params:netconf:capability:with-defaults:1.0?basic-mode=trim&amp;also-supported=report-all",
+		"urn:ietf:params:netconf:capability:candidate:1.0", "urn:ietf:params:netconf:capability:confirmed-commit:1.0"},
+	{"urn:ietf:params:netconf:capability:with-defaults:1.0?basic-mode=report-all-tagged;also-supported=explicit",
+		"urn:ietf:params:netconf:capability:url:1.0?scheme=http", "urn:ietf:params:netconf:capability:notification:1.0"},
+	{"urn:ietf:params:netconf:capability:with-defaults:1.0?also-supported=trim&amp;basic-mode=explicit"},
+	{"http://xml.juniper.net/netconf/junos/1.0", "http://xml.juniper.net/dmi/system/1.0", "urn:ietf:params:xml:ns:netconf:capability:candidate:1.0",
+		"urn:ietf:params:netconf:capability:candidate:1.0", "urn:ietf:params:netconf:capability:confirmed-commit:1.0",
+		"urn:ietf:params:netconf:capability:validate:1.0", "urn:ietf:params:netconf:capability:url:1.0?scheme=http,ftp,file"},
+}
+
+func c03runSession(v string, neg, caps int, sc, nh bool, ops []c03op) c03obs {
+	return c03runSessionFault(v, neg, caps, sc, nh, ops, -1)
 }
 
 // c03runSessionFault: writeErrAfter >= 0 makes the transport refuse every write that would take
 // the total number of written bytes beyond that count.
-func c03runSessionFault(v string, neg int, sc, nh bool, ops []c03op, writeErrAfter int) c03obs {
+func c03runSessionFault(v string, neg, caps int, sc, nh bool, ops []c03op, writeErrAfter int) c03obs {
 	var o c03obs
 	ng := c03negotiations[v][neg%len(c03negotiations[v])]
 	s := sim.NewNCServer(ng.caps10, ng.caps11)
+	s.Hello = s.DefaultHello(4711, c03capSets[caps%len(c03capSets)])
 	s.WriteErrAfter = writeErrAfter
 	s.Behave = func(i int, req sim.NCRequest) sim.NCReply {
 		if bytes.Contains(req.Raw, []byte("<establish-subscription ")) {
@@ -961,13 +989,37 @@ func (g c03gen) session(v string, sc, nh bool, nops int, small bool) []c03op {
 func c03mkSession(v string, sc, nh bool, seed uint64, nops int, small bool) c03sessCase {
 	g := c03gen{r: vlib.NewRng(seed)}
 	neg := g.r.Intn(len(c03negotiations[v]))
+	caps := g.r.Intn(len(c03capSets))
 	return c03sessCase{
 		neg:  neg,
+		caps: caps,
 		wfK:  -1,
 		wfPh: -1,
 		line: fmt.Sprintf("c03 sess %s %s %s %d %d %s", v, c03b(sc), c03b(nh), seed, nops, c03b(small)),
 		v:    v, sc: sc, nh: nh, ops: g.session(v, sc, nh, nops, small),
 	}
+}
+
+// c03basicMode: the with-defaults basic mode a capability set advertises ("" if none).
+func c03basicMode(caps int) string {
+	for _, c := range c03capSets[caps] {
+		if i := strings.Index(c, "basic-mode="); i >= 0 && strings.Contains(c, "capability:with-defaults:") {
+			m := c[i+len("basic-mode="):]
+			if j := strings.IndexAny(m, "&;"); j >= 0 {
+				m = m[:j]
+			}
+			return m
+		}
+	}
+	return ""
+}
+
+// c03refCaps: the capability set of the reference session (never the session's own).
+func c03refCaps(caps int) int {
+	if caps == 0 {
+		return 1
+	}
+	return 0
 }
 
 func c03firstDiff(a, b []byte) int {
@@ -1281,12 +1333,10 @@ func c03sessions(c *ctx, sess []c03sessCase) {
 					runs[i].skipped = true
 					continue
 				}
-				runs[i].obs = c03runSession(sc.v, sc.neg, sc.sc, sc.nh, sc.ops)
-				if sc.sc || !sc.nh {
-					runs[i].ref = c03runSession(sc.v, sc.neg, false, true, sc.ops)
-				} else {
-					runs[i].ref = runs[i].obs
-				}
+				runs[i].obs = c03runSession(sc.v, sc.neg, sc.caps, sc.sc, sc.nh, sc.ops)
+				// the reference session (no options) always faces a server with a DIFFERENT capability
+				// set: the request must be a function of the caller's arguments only
+				runs[i].ref = c03runSession(sc.v, sc.neg, c03refCaps(sc.caps), false, true, sc.ops)
 			}
 		}()
 	}
@@ -1362,6 +1412,7 @@ func c03sessions(c *ctx, sess []c03sessCase) {
 		res.Count(fmt.Sprintf("session:v=%s sc=%s nh=%s", sc.v, c03b(sc.sc), c03b(sc.nh)))
 		ng := c03negotiations[sc.v][sc.neg]
 		res.Count(fmt.Sprintf("negotiation:v=%s server-caps(1.0=%v,1.1=%v) preferred=%q", sc.v, ng.caps10, ng.caps11, ng.preferred))
+		res.Count(fmt.Sprintf("server-capability-set:%d", sc.caps))
 		res.Count(fmt.Sprintf("session-requests:%02d-%02d", (len(sc.ops)-1)/5*5+1, (len(sc.ops)-1)/5*5+5))
 		mf := strings.Fields(mAns)
 		if len(mf) != 5 {
@@ -1423,6 +1474,25 @@ func c03sessions(c *ctx, sess []c03sessCase) {
 			if op.shape != "" {
 				res.Count("fragment:" + op.shape)
 			}
+			if op.kind == "get-config" && op.defaults != "" {
+				switch bm := c03basicMode(sc.caps); {
+				case bm == "":
+					res.Count("defaults-mode-vs-server:server advertises no with-defaults")
+				case bm == op.defaults:
+					res.Count("defaults-mode-vs-server:caller's mode IS the server's basic mode")
+				default:
+					res.Count("defaults-mode-vs-server:caller's mode differs from the basic mode")
+				}
+			}
+			if op.ftype == "xpath" && op.filter != "" {
+				res.Count(fmt.Sprintf("xpath-filter:server advertises xpath=%v", strings.Contains(strings.Join(c03capSets[sc.caps], " "), "capability:xpath:")))
+			}
+			if op.kind == "commit" && op.confirmed {
+				res.Count(fmt.Sprintf("confirmed-commit:server advertises confirmed-commit=%v", strings.Contains(strings.Join(c03capSets[sc.caps], " "), "capability:confirmed-commit:")))
+			}
+			if op.src == "url" || op.tgt == "url" {
+				res.Count(fmt.Sprintf("url-datastore:server advertises url=%v", strings.Contains(strings.Join(c03capSets[sc.caps], " "), "capability:url:")))
+			}
 			if op.stray != 0 {
 				res.Count("op-with-stray-options:" + op.kind)
 			}
@@ -1456,7 +1526,17 @@ func c03sessions(c *ctx, sess []c03sessCase) {
 			}
 			if !sc.sc {
 				if !bytes.Equal(in, want) {
-					res.Fail("oracle", sc.line, fmt.Sprintf("request %d: input is not the declaration followed by the marshalled rpc: %.120q vs %.120q", n, in, want), "header-only-prefix")
+					// the two sessions differ in ExcludeHeader (if at all) and in what the server advertised
+					sig, what := "header-only-prefix", "input is not the declaration followed by the marshalled rpc"
+					body := in
+					if !sc.nh {
+						body = bytes.TrimPrefix(in, []byte(c03Header))
+					}
+					if !bytes.Equal(body, o.ref.inputs[k]) && bytes.HasPrefix(in, []byte(c03Header)) != sc.nh {
+						sig = "request-depends-on-server-capabilities"
+						what = fmt.Sprintf("the same call (%s) produces different requests against servers advertising %q and %q", op.describe(), c03capSets[sc.caps], c03capSets[c03refCaps(sc.caps)])
+					}
+					res.Fail("oracle", sc.line, fmt.Sprintf("request %d: %s: %s vs %s", n, what, c03clip(string(in), 400), c03clip(string(want), 400)), sig)
 				}
 			} else {
 				chk = append(chk, "c03 chk "+vlib.Hex(want)+" "+vlib.Hex(in))
@@ -1532,7 +1612,7 @@ func c03sessions(c *ctx, sess []c03sessCase) {
 		}
 		limit := before + []int{0, len(o.obs.framed[k]), len(o.obs.framed[k]) + 1}[phase]
 		res.Count(fmt.Sprintf("write-failure:v=%s at=%s", sc.v, []string{"framed-message", "return", "second-return"}[phase]))
-		f := c03runSessionFault(sc.v, sc.neg, sc.sc, sc.nh, sc.ops[:k+1], limit)
+		f := c03runSessionFault(sc.v, sc.neg, sc.caps, sc.sc, sc.nh, sc.ops[:k+1], limit)
 		res.Case(fmt.Sprintf("wf|%s|%d|%d|%d", sc.line, k, phase, limit), true)
 		caseLine := fmt.Sprintf("%s wf %d %d", strings.Join(strings.Fields(sc.line)[:8], " "), k, phase)
 		switch {
@@ -1604,6 +1684,10 @@ func c03sessions(c *ctx, sess []c03sessCase) {
 			if k >= len(runs[i].ref.inputs) || runs[i].ref.inputs[k] == nil {
 				continue
 			}
+			if op.kind == "get-config" && op.defaults != "" && !op.wantErr {
+				embLines = append(embLines, "c03 embed defaults "+vlib.Hex([]byte(op.defaults)))
+				embIdx = append(embIdx, key{i, k})
+			}
 			switch {
 			case op.kind == "edit-config":
 				embLines = append(embLines, "c03 embed edit "+vlib.Hex([]byte(op.tgt))+" "+vlib.Hex([]byte(op.config)))
@@ -1616,8 +1700,21 @@ func c03sessions(c *ctx, sess []c03sessCase) {
 	}
 	embAns := c.ask(embLines)
 	for q, kk := range embIdx {
-		want, _ := vlib.UnHex(embAns[q])
 		op := &sess[kk.s].ops[kk.k]
+		if f := strings.Fields(embAns[q]); len(f) == 2 {
+			// the with-defaults element: both sessions (two different server capability sets) must carry it
+			want, _ := vlib.UnHex(f[1])
+			res.Count("embedding-checked:with-defaults")
+			for which, in := range [][]byte{runs[kk.s].ref.inputs[kk.k], runs[kk.s].obs.inputs[kk.k]} {
+				caps := []int{c03refCaps(sess[kk.s].caps), sess[kk.s].caps}[which]
+				if f[0] != "elem" || in == nil || (!bytes.Contains(in, want) && !sess[kk.s].sc) || (which == 0 && !bytes.Contains(in, want)) {
+					res.Fail("oracle", sess[kk.s].line, fmt.Sprintf("request %d (%s): the caller's defaults mode is not on the wire as %s although the call succeeded (server advertised %q): %s", kk.k, op.describe(), want, c03capSets[caps], c03clip(string(in), 400)), "defaults-mode-missing")
+					break
+				}
+			}
+			continue
+		}
+		want, _ := vlib.UnHex(embAns[q])
 		res.Count("embedding-checked:" + op.kind)
 		if !bytes.Contains(runs[kk.s].ref.inputs[kk.k], want) {
 			res.Fail("oracle", sess[kk.s].line, fmt.Sprintf("request %d (%s): the request does not contain the element that embeds the caller's XML verbatim, %s; request: %s", kk.k, op.describe(), c03clip(string(want), 200), c03clip(string(runs[kk.s].ref.inputs[kk.k]), 400)), "payload-altered")
